@@ -161,6 +161,9 @@ def showCbs (l : List CB) : String := if l.isEmpty then "-" else ",".intercalate
 structure Ghost where
   now : Nat := 0
   validator : Nat := 0
+  /-- the callback of this life does not override `on_reject`: the trait's default hands a refused
+  value to `on_exit` -/
+  defaultReject : Bool := false
   /-- value id ↦ (index, conflict) it was written under -/
   origin : List (Nat × Nat × Nat) := []
   /-- values accepted by an insert that returned true -/
@@ -357,6 +360,7 @@ def finishStep (st : CacheSt) (tl : Tally) (c' : Cache) (what : String) (cbsMode
     ({ st with c := some { c' with cbs := [] }, g := { g with prev := st.g.prev }, pendingCbs := st.pendingCbs ++ cbsModel }, tl)
   else
   let cbsModel := st.pendingCbs ++ cbsModel
+  let cbsModel := if g.defaultReject then cbsModel.map (fun cb => match cb with | .reject _ _ v _ => CB.exit v | x => x) else cbsModel
   let st := { st with pendingCbs := [] }
   let tl := if cbsModel == cbsImpl then tl
     else tl.divergeAt s!"{what}.callbacks" (showCbs cbsModel) (showCbs cbsImpl)
@@ -414,21 +418,51 @@ partial def stepCache (st : CacheSt) (tl : Tally) (act : String) (ans : String) 
   let g := st.g
   if ans.startsWith "PANIC" then
     (st, tl.monitorAt "C20" s!"the implementation panicked in `{act}`") else
+  if ans.startsWith "HANG" then
+    -- the harness' watchdog: a step of the implementation did not complete
+    let tl := tl.monitorAt "C20" s!"the implementation did not complete `{act}` ({ans}): an operation or a worker step blocks for ever"
+    let has := fun (w : String) => (act.splitOn w).length > 1
+    let tl := if has "close" || has "stop" then tl.monitorAt "C12" s!"`{act}` did not complete ({ans}): close() / the workers' shutdown blocks" else tl
+    let tl := if has "wait" then tl.monitorAt "C10" s!"`{act}` did not complete ({ans}): wait() blocks for ever" else tl
+    let tl := if has "clear" then tl.monitorAt "C11" s!"`{act}` did not complete ({ans}): clear() blocks for ever" else tl
+    (st, tl) else
   match a with
   | "c.init" :: rest =>
     let kv := kvs rest
     match getNat kv "itemsize", getNat kv "ignore", getNat kv "bufcap", getNat kv "ringcap", lookup kv "pqcap",
           getNat kv "metrics", getInt kv "max", getNat kv "samples", getNat kv "validator" with
     | some isz, some ign, some bc, some rc, some pq, some me, some mx, some sm, some vl =>
-      let cfg : Cfg := { itemSize := isz, ignoreInternal := ign == 1, bufCap := bc, ringCap := rc,
-                         pqCap := pq.toNat?, metricsOn := me == 1 }
+      -- what the built cache really uses (read back through the hooks), where the harness reports it
+      let effIgn := (getNat kv "eff_ignore").getD ign
+      let effRc := (getNat kv "eff_ringcap").getD rc
+      let effMe := (getNat kv "eff_metrics").getD me
+      let cfg : Cfg := { itemSize := isz, ignoreInternal := effIgn == 1, bufCap := bc, ringCap := effRc,
+                         pqCap := pq.toNat?, metricsOn := effMe == 1 }
+      let order := s!"setter order: late={(lookup kv "late").getD "?"}"
+      let mism := fun (tl : Tally) (props : List String) (what : String) (want got : String) =>
+        if want == got then tl else
+          props.foldl (fun tl p => tl.monitorAt p s!"the builder was given {what} = {want} but the cache was built with {got} ({order})")
+            (tl.divergeAt s!"c.init.{what}" want got)
+      let tl := mism tl ["C16", "C01", "C07", "C04", "C20"] "ignore_internal_cost" (toString ign) (toString effIgn)
+      let tl := mism tl ["C15", "C20"] "buffer_items" (toString rc) (toString effRc)
+      let tl := mism tl ["C17", "C20"] "metrics" (toString me) (toString effMe)
+      let tl := match getNat kv "counters", getNat kv "eff_counters" with
+        | some want, some got => mism tl ["C13", "C15", "C07", "C20"] "num_counters" (toString want) (toString got)
+        | _, _ => tl
+      let tl := match getNat kv "cfgcleanup", getNat kv "eff_cleanup" with
+        | some want, some got => mism tl ["C05", "C20"] "cleanup_duration_ns" (toString want) (toString got)
+        | _, _ => tl
+      let tl := match getInt kv "cfgmax", some mx with
+        | some want, some got => mism tl ["C01", "C20"] "max_cost" (toString want) (toString got)
+        | _, _ => tl
       -- C20: the cache was built with the buffer size that was asked for
       let tl := match getNat kv "cfgbuf" with
         | some want => if want == bc then tl else
-            (tl.divergeAt "c.init.bufcap" (toString want) (toString bc)).monitorAt "C20"
-              s!"the builder was given insert buffer size {want} but the cache was built with {bc} (setter order: late={(lookup kv "late").getD "?"})"
+            ["C20", "C10", "C04"].foldl (fun tl p => tl.monitorAt p
+              s!"the builder was given insert buffer size {want} but the cache was built with {bc} (setter order: late={(lookup kv "late").getD "?"}): inserts are dropped and wait() reports a full buffer long before the configured buffer is full")
+              (tl.divergeAt "c.init.bufcap" (toString want) (toString bc))
         | none => tl
-      ({ c := some (Cache.init cfg mx sm), g := { validator := vl } }, { tl with ok := tl.ok + 1 })
+      ({ c := some (Cache.init cfg mx sm), g := { validator := vl, defaultReject := (getNat kv "defrej").getD 0 == 1 } }, { tl with ok := tl.ok + 1 })
     | _, _, _, _, _, _, _, _, _ => (st, tl.badAt act)
   | "f.config" :: rest =>
     let kv := kvs rest
@@ -983,6 +1017,23 @@ partial def stepCache (st : CacheSt) (tl : Tally) (act : String) (ans : String) 
                 | some (_, ch) => if ch == c.internalCost cost + ext then tl else
                     tl.monitorAt "C16" s!"update of key {k} applied: charged {ch}, expected {c.internalCost cost + ext}"
                 | none => tl
+              | _ => tl
+            -- C09 / C06: an Update item never creates a charge (insert_if_present / update never create)
+            let tl := match implItem.getD it with
+              | .update k _ _ =>
+                let before := (g.prev.map fun p => p.charges.any (·.1 == k)).getD true
+                if !before && snap.charges.any (·.1 == k) then
+                  ["C09", "C06"].foldl (fun tl p => tl.monitorAt p s!"the processor applied an Update item for key {k}, which the policy did not charge: it is charged now although nothing of it is resident — an update created an entry in the policy") tl
+                else tl
+              | _ => tl
+            -- C07 / C08: a refused newcomer is handed to on_reject (on_exit by default), never to on_evict
+            let tl := match implItem.getD it with
+              | .new k _ _ v _ =>
+                let wasCharged := (g.prev.map fun p => p.charges.any (·.1 == k)).getD false
+                if !wasCharged && !(snap.charges.any (·.1 == k)) &&
+                    cbsImpl.any (fun cb => match cb with | .evict ek _ ev _ => ek == k && ev == v | _ => false) then
+                  ["C07", "C08"].foldl (fun tl p => tl.monitorAt p s!"the insert of key {k} (value {v}) was refused by the policy, yet the value was handed to on_evict: a rejection was reported as an eviction") tl
+                else tl
               | _ => tl
             -- evict callbacks carry the charged cost of the victim
             let tl := cbsImpl.foldl (fun tl cb => match cb with
